@@ -1,1 +1,368 @@
-CHECKS = {}
+"""Text / table level checks (DESIGN layer T): pure functions with rich case analysis are
+specified in TLA+ (ShareLink, Stats, Tables, IC10Grammar/LineForm, NumFmt); TLC enumerates the
+specification's behaviours, which are replayed into the real functions (spec -> code), and
+evaluates the specification on artefacts/tables/traces extracted from the real code
+(code -> spec)."""
+import copy
+import json
+import os
+import random
+import re
+import subprocess
+import time
+
+import compilew as cw
+import corpus
+import ic10load
+from common import (NCPU, PY, REPO, SPEC, MachineryError, Reporter, known_findings, run_tlc, seed, workdir,
+                    write_evidence)
+
+
+def tlc(name, module, cfg, files=None, workers=8, timeout=900, heap="6g"):
+    d = workdir(name)
+    for fn, obj in (files or {}).items():
+        with open(os.path.join(d, fn), "w") as f:
+            json.dump(obj, f)
+    cfgp = os.path.join(d, module + ".cfg")
+    with open(cfgp, "w") as f:
+        f.write(cfg)
+    r = run_tlc(os.path.join(SPEC, module + ".tla"), cfgp, d, workers=workers, timeout=timeout, heap=heap)
+    return r
+
+
+def scen(r, tag="SCEN"):
+    return [json.loads(p[1]) for p in r.tagged(tag)]
+
+
+# ---------------------------------------------------------------------------------------
+# C18 share links
+# ---------------------------------------------------------------------------------------
+NODE_SCRIPT = r"""
+const fs = require('fs');
+const xs = JSON.parse(fs.readFileSync(process.argv[2], 'utf8'));
+const out = xs.map(s => { const u = new URL('https://example.org/app/?x=1'); u.searchParams.set('data', s);
+  return new URL(u.toString()).searchParams.get('data'); });
+fs.writeFileSync(process.argv[3], JSON.stringify(out));
+"""
+
+
+def url_transit(strings, d):
+    """What URL.searchParams.set -> toString -> get does to each string (real URL implementation of node)."""
+    node = None
+    for cand in ("/usr/bin/nodejs", "/usr/bin/node"):
+        if os.path.exists(cand):
+            node = cand
+            break
+    if node is None:
+        return None
+    with open(os.path.join(d, "transit.js"), "w") as f:
+        f.write(NODE_SCRIPT)
+    with open(os.path.join(d, "transit_in.json"), "w") as f:
+        json.dump(strings, f)
+    p = subprocess.run([node, os.path.join(d, "transit.js"), os.path.join(d, "transit_in.json"), os.path.join(d, "transit_out.json")],
+                       stdout=subprocess.PIPE, stderr=subprocess.STDOUT, timeout=300)
+    if p.returncode != 0:
+        return None
+    with open(os.path.join(d, "transit_out.json")) as f:
+        return json.load(f)
+
+
+def gen_dicts(rnd, n):
+    """JSON dictionaries as the web page shares them: source text + option values (+ nesting)."""
+    pool = [s for fam in ("branches", "functions", "access") for _, s in corpus.family(fam)]
+    alph = ["a", "Z", "0", " ", "\n", "\t", "+", "/", "=", "-", "_", "?", "&", "%", "#", "\"", "\\", "é", "ß", "中",
+            "Ж", "\U0001F600", "\U00010348", "\u0000", "\u007f", "\ufeff", "\u200b"]
+    out = []
+    for k in range(n):
+        kind = k % 6
+        if kind == 0:
+            code = rnd.choice(pool)
+        elif kind == 1:
+            code = "".join(rnd.choice(alph) for _ in range(rnd.randrange(0, 40)))
+        elif kind == 2:
+            code = rnd.choice(pool)[: rnd.randrange(0, 60)] + "".join(rnd.choice(alph) for _ in range(rnd.randrange(0, 8)))
+        elif kind == 3:
+            code = rnd.choice(alph) * rnd.randrange(0, 300)
+        elif kind == 4:
+            code = "".join(chr(rnd.randrange(32, 0x2FFF)) for _ in range(rnd.randrange(1, 30)))  # below the surrogate range
+        else:
+            code = ""
+        dct = {"code": code}
+        if rnd.random() < 0.7:
+            dct["compact"] = rnd.random() < 0.5
+        if rnd.random() < 0.4:
+            dct["options"] = {o: rnd.random() < 0.5 for o in rnd.sample(cw.OPTION_NAMES, rnd.randrange(0, 8))}
+        if rnd.random() < 0.3:
+            dct[rnd.choice(alph) + "k"] = rnd.choice([None, 0, -1, 2**40, 1.5, -0.25, [1, "x", None], {"n": {"m": []}}])
+        out.append(dct)
+    return out
+
+
+def check_c18(tier, t0):
+    from stationeers_pytrapic import types as T
+    import zlib
+
+    rep = Reporter("C18")
+    maxlen = 5 if tier == "thorough" else 4
+    byteset = "{0, 62, 63, 190, 239, 251, 255}"
+    cfg = ("SPECIFICATION Spec\nCONSTANTS\n ByteSet = %s\n MaxLen = %d\nINVARIANT EncodedIsUrlSafe\nINVARIANT TransitHarmless\n"
+           "INVARIANT RoundTrip\nINVARIANT PaddingRestored\nINVARIANT Compositional\nINVARIANT Export\nCHECK_DEADLOCK FALSE\n"
+           % (byteset, maxlen))
+    r = tlc("C18_model", "ShareLink", cfg, workers=8, timeout=1800)
+    if not r.ok:
+        # the design itself violates a property: this is about the specification, decide by reading the output
+        raise MachineryError("ShareLink.tla: TLC did not complete cleanly:\n" + r.out[-3000:])
+    scens = scen(r)
+    if len(scens) < 100:
+        raise MachineryError("ShareLink.tla exported only %d behaviours" % len(scens))
+    # ---- spec -> code: every model behaviour through the real functions, zlib replaced by the model's bytes
+    real_compress, real_decompress = zlib.compress, zlib.decompress
+    captured = {}
+    nrep = 0
+    real_enc = []
+    try:
+        for sc in scens:
+            raw = bytes(sc["raw"])
+            want = "".join(chr(c) for c in sc["enc"])
+            zlib.compress = lambda b, *a, _raw=raw, **k: _raw
+            zlib.decompress = lambda b, *a, **k: (captured.__setitem__("b", bytes(b)), b"{}")[1]
+            try:
+                got = T.encode_data({})
+            except Exception as e:
+                got = "!raised %s: %s" % (type(e).__name__, e)
+            nrep += 1
+            real_enc.append(got)
+            if got != want:
+                rep.violation(["model"], "ENCODE_DIFFERS_FROM_SPEC",
+                              {"property": "C18", "raw_bytes": sc["raw"], "spec_encoded": want, "real_encoded": got},
+                              "bytes=%s spec=%r real=%r" % (sc["raw"], want, got))
+                continue
+            captured.clear()
+            try:
+                T.decode_data(got)
+                back = captured.get("b")
+            except Exception as e:
+                back = "!raised %s: %s" % (type(e).__name__, e)
+            if back != raw:
+                rep.violation(["model"], "DECODE_DIFFERS_FROM_SPEC",
+                              {"property": "C18", "raw_bytes": sc["raw"], "encoded": got, "bytes_reaching_decompress": list(back) if isinstance(back, bytes) else back},
+                              "bytes=%s encoded=%r decode gave %r" % (sc["raw"], got, back))
+    finally:
+        zlib.compress, zlib.decompress = real_compress, real_decompress
+    # ---- code -> spec: real dictionaries, recorded at the zlib boundary, validated by TLC as traces
+    rnd = random.Random(seed() + 18)
+    dicts = gen_dicts(rnd, 400 if tier == "thorough" else 120)
+    obs = []
+    texts = []
+    rec = {}
+
+    def comp(b, *a, **k):
+        out = real_compress(b, *a, **k)
+        rec["raw"] = out
+        return out
+
+    def decomp(b, *a, **k):
+        rec["back"] = bytes(b)
+        return real_decompress(b, *a, **k)
+
+    nrt = 0
+    try:
+        zlib.compress, zlib.decompress = comp, decomp
+        for dct in dicts:
+            rec.clear()
+            try:
+                text = T.encode_data(dct)
+            except Exception as e:
+                rep.violation(["dict"], "ENCODE_RAISED", {"property": "C18", "dict": dct, "exception": repr(e)}, "encode_data raised %r" % e)
+                continue
+            bad = sorted({c for c in text if not re.match(r"[A-Za-z0-9_-]", c)})
+            if bad:
+                rep.violation(["dict"], "NOT_URL_SAFE", {"property": "C18", "dict": dct, "encoded": text, "characters": bad},
+                              "encoded text contains %r" % bad)
+            try:
+                back = T.decode_data(text)
+            except Exception as e:
+                back = "!raised %s: %s" % (type(e).__name__, e)
+            nrt += 1
+            if back != dct:
+                rep.violation(["dict"], "ROUND_TRIP", {"property": "C18", "dict": dct, "encoded": text, "decoded": back},
+                              "decode_data(encode_data(d)) != d for d=%r" % (str(dct)[:80]))
+            if "raw" in rec:
+                obs.append({"raw": list(rec["raw"]), "enc": [ord(c) for c in text], "back": list(rec.get("back", b"")) if "back" in rec else [-1]})
+                texts.append(text)
+    finally:
+        zlib.compress, zlib.decompress = real_compress, real_decompress
+    if not obs:
+        raise MachineryError("no observation recorded at the zlib boundary (encode_data no longer calls zlib.compress?)")
+    mut = copy.deepcopy(obs[0])
+    mut["enc"][0] = 45 if mut["enc"][0] != 45 else 95
+    tcfg = ("SPECIFICATION TSpec\nCONSTANTS\n ByteSet = {0}\n MaxLen = 0\nCHECK_DEADLOCK FALSE\n")
+    rt = tlc("C18_trace", "ShareLinkTrace", tcfg, files={"obs.json": obs + [mut]}, workers=8, timeout=1800)
+    if not rt.ok:
+        raise MachineryError("ShareLinkTrace.tla failed:\n" + rt.out[-3000:])
+    tv = rt.verdicts()
+    if tv.get(len(obs) + 1, set()) - {"reported"} == {"OK"} or not tv.get(len(obs) + 1):
+        raise MachineryError("binding self-test failed: a corrupted observation was accepted by ShareLinkTrace")
+    for k in range(1, len(obs) + 1):
+        vs = tv.get(k, set()) - {"reported"}
+        if not vs:
+            raise MachineryError("no verdict for observation %d" % k)
+        for v in vs:
+            if v != "OK":
+                rep.violation(["dict"], v, {"property": "C18", "dict": dicts[k - 1] if k - 1 < len(dicts) else None, "observation": obs[k - 1]},
+                              "observation %d rejected by the specification: %s" % (k, v))
+    # ---- the page's URL handling, with the real URL implementation of node
+    d = workdir("C18_url")
+    allstr = sorted(set(texts + [t for t in real_enc if not t.startswith("!")]))
+    back = url_transit(allstr, d)
+    url_checked = 0
+    if back is not None:
+        for a, b in zip(allstr, back):
+            url_checked += 1
+            if a != b:
+                rep.violation(["url"], "CHANGED_IN_URL", {"property": "C18", "encoded": a, "after_url": b},
+                              "encoded text %r comes back from the URL as %r" % (a[:40], b[:40] if b else b))
+    cov = {
+        "states": r.distinct + rt.distinct, "transitions": r.generated + rt.generated,
+        "traces_validated_against_impl": len(obs), "spec_behaviours_replayed_into_code": nrep,
+        "round_trips_of_real_dictionaries": nrt, "url_transits_checked_with_node": url_checked,
+        "exhaustive": True,
+        "rule": "model: all byte strings of length <= %d over %s (produces every sextet class incl. '+', '/', padding 0/1/2) through the "
+                "10-step pipeline; every behaviour replayed into encode_data/decode_data with zlib replaced by the model's bytes; "
+                "real dictionaries (corpus sources, Unicode incl. astral planes, NUL, BOM; no lone surrogates: not Unicode text, option values, nesting) recorded at the "
+                "zlib boundary and validated as traces by ShareLinkTrace.tla" % (maxlen, byteset),
+        "samples": [{"raw_bytes": scens[len(scens) // 2]["raw"], "encoded": "".join(chr(c) for c in scens[len(scens) // 2]["enc"])},
+                    {"dict": dicts[1], "encoded": texts[1] if len(texts) > 1 else None}],
+        "binding_self_test": "corrupted observation rejected",
+        "known_findings_hit": sorted(rep.known),
+    }
+    write_evidence("C18", tier, "model_checking", cov, time.time() - t0, violations=len(rep.violations),
+                   assumptions=["json.dumps/loads and zlib.compress/decompress are inverse on the generated dictionaries (standard library; exercised, not modelled)",
+                                "dictionaries have string keys and JSON values (finite numbers)",
+                                "URL transit = WHATWG URLSearchParams as implemented by node %s" % ("(checked)" if back is not None else "(node not found: modelled only)")])
+    return rep.finish()
+
+
+CHECKS = {"C18": check_c18}
+
+
+# ---------------------------------------------------------------------------------------
+# C17 statistics
+# ---------------------------------------------------------------------------------------
+EXPLICIT_REG = re.compile(r"\br(1[0-6]|[0-9])\b")
+
+
+def main_text(src):
+    return src if isinstance(src, str) else "\n".join(src.values())
+
+
+def stats_vectors(tier):
+    v = [cw.REF, dict(cw.opts(inline_functions=True), append_version=True),
+         cw.opts(original_code_as_comment=True, generated_comments=True, append_version=True),
+         cw.opts(inline_functions=True, remove_labels=True, compact=True),
+         cw.opts(use_push_pop_functions=True, remove_labels=True, append_version=True)]
+    if tier == "thorough":
+        v += [cw.opts(tail_call_optimization=True, compact=True), cw.opts(generated_comments=True, remove_labels=True),
+              cw.opts(original_code_as_comment=True, inline_functions=True), cw.opts(append_version=True, compact=True, inline_functions=True)]
+    return v
+
+
+def edge_programs():
+    H = corpus.HEADER
+    return [
+        ("ed_empty", ""),
+        ("ed_import_only", H),
+        ("ed_comment_only", "# nothing here\n"),
+        ("ed_pass", H + "pass\n"),
+        ("ed_unused_assign", H + "xa = 1\n"),
+        ("ed_one_line", H + "d0.Setting = 1\n"),
+        ("ed_one_yield", H + "yield_()\n"),
+        ("ed_unused_function", H + "def fa(xa):\n    return xa\n"),
+        ("ed_nonascii_comment", H + "# Überdruck prüfen 中\nva = d0.Pressure  # größer?\nd1.On = va > 1  # ñ\n"),
+        ("ed_label_only_loop", H + "while True:\n    pass\n"),
+        ("ed_16_regs", H + "while True:\n" + "".join("    w%d = d0.Setting + %d\n" % (i, i) for i in range(16)) +
+         "    d1.Setting = " + " + ".join("w%d" % i for i in range(16)) + "\n    yield_()\n"),
+        ("ed_no_regs", H + "while True:\n    d0.On = 1\n    yield_()\n"),
+    ]
+
+
+def check_c17(tier, t0):
+    import checks_lang as CL
+
+    rep = Reporter("C17")
+    progs = [(n, s) for n, s, _ in CL.pick(CL.all_progs(), tier, 45)]
+    progs += [(n, s) for n, s in corpus.family("term")] + edge_programs()
+    progs += [(n, s) for n, s in corpus.repo_programs(REPO) if not EXPLICIT_REG.search(main_text(s))]
+    vecs = stats_vectors(tier)
+    jobs, meta = [], []
+    for n, s in progs:
+        for v in vecs:
+            jobs.append({"src": s, "options": v})
+            meta.append((n, s, v))
+    res = cw.compile_many(jobs)
+    cases, cmeta = [], []
+    nerr = 0
+    for (n, s, v), r in zip(meta, res):
+        if r["raised"]:
+            continue  # C10's business
+        out = r["result"]
+        if not isinstance(out, dict) or "code" not in out:
+            nerr += 1
+            continue
+        code = out["code"]
+        missing = [k for k in ("num_lines", "num_bytes", "num_registers") if not isinstance(out.get(k), int)]
+        if missing or not isinstance(code, str):
+            rep.violation([n, n + "@" + cw.vec_name(v)], "STATISTICS_MISSING", {"property": "C17", "case": n, "options": v, "source": s, "result": out},
+                          "case=%s variant=%s result lacks %s" % (n, cw.vec_name(v), missing))
+            continue
+        regs = sorted({int(m.group(1)) for l in code.split("\n") for t in ic10load.tokenize(l) for m in [re.match(r"^r(\d+)$", t)] if m})
+        post = [e for e in (r["events"] or []) if e["ev"] == "h1_post"]
+        used = sorted(int(x) for x in post[0]["used"]) if len(post) == 1 else [-1]
+        cases.append({"code": [ord(c) for c in code], "nl": out["num_lines"], "nb": out["num_bytes"], "nr": out["num_registers"],
+                      "regs": regs, "used": used})
+        cmeta.append((n, s, v, out))
+    if not cases:
+        raise MachineryError("no successful compilation to check")
+    if not any(c["used"] != [-1] for c in cases):
+        raise MachineryError("hook H1 delivered no allocation record (is the hook commit applied and the guard on?)")
+    mut = copy.deepcopy(next(c for c in cases if c["nl"] > 1))
+    mut["nb"] += 1
+    r = tlc("C17", "Stats", "SPECIFICATION Spec\nCHECK_DEADLOCK FALSE\n", files={"cases.json": cases + [mut]}, workers=8, timeout=1800)
+    if not r.ok:
+        raise MachineryError("Stats.tla failed:\n" + r.out[-3000:])
+    tv = r.verdicts()
+    if "NUM_BYTES_WRONG" not in tv.get(len(cases) + 1, set()):
+        raise MachineryError("binding self-test failed: Stats.tla accepted a corrupted byte count")
+    bad = 0
+    for k in range(1, len(cases) + 1):
+        vs = tv.get(k, set()) - {"reported"}
+        if not vs:
+            raise MachineryError("no verdict for case %d" % k)
+        n, s, v, out = cmeta[k - 1]
+        for vd in vs:
+            if vd == "OK":
+                continue
+            if rep.violation([n, n + "@" + cw.vec_name(v)], vd,
+                             {"property": "C17", "case": n, "options": v, "source": s, "result": out, "verdict": vd},
+                             "case=%s variant=%s %s (num_lines=%s num_bytes=%s num_registers=%s)" %
+                             (n, cw.vec_name(v), vd, out["num_lines"], out["num_bytes"], out["num_registers"])):
+                bad += 1
+    distinct = len({json.dumps(c["code"]) for c in cases})
+    cov = {"states": r.distinct, "transitions": r.generated, "traces_validated_against_impl": len(cases),
+           "evaluations": len(cases), "distinct_nontrivial": distinct,
+           "rule": "every successful result of compiling the program families, the terminating family, edge programs (empty, imports "
+                   "only, comments only, non-ASCII comments, 0 and 16 registers) and the repository's own programs (those that do not "
+                   "name registers explicitly) under %d option vectors incl. comment/version/label-removal vectors; TLC evaluates "
+                   "Stats.tla on each: lines, bytes with two-byte line ends, registers vs tokens in the text and vs hook H1's allocation; "
+                   "distinct = distinct emitted texts" % len(vecs),
+           "samples": [{"case": cmeta[0][0], "options": cw.vec_name(cmeta[0][2]), "result": cmeta[0][3]},
+                       {"case": cmeta[-1][0], "options": cw.vec_name(cmeta[-1][2]), "result": cmeta[-1][3]}],
+           "compile_errors_skipped": nerr, "binding_self_test": "corrupted byte count rejected", "known_findings_hit": sorted(rep.known)}
+    write_evidence("C17", tier, "model_checking", cov, time.time() - t0, violations=bad,
+                   assumptions=["size is counted in characters (the emitted text is ASCII except for copied source comments)",
+                                "register tokens are found with the loader's tokeniser (comments excluded)",
+                                "hook H1 reports the allocator's result (cross-checked by C04's binding test)"])
+    return rep.finish()
+
+
+CHECKS["C17"] = check_c17
